@@ -25,6 +25,7 @@ R = z3.Function('R', z3.RealSort(), z3.RealSort())
 PW = z3.Function('PW', z3.RealSort(), z3.RealSort(), z3.RealSort())
 PWF = z3.Function('PWF', z3.Float64(), z3.Float64(), z3.Float64())
 SQ = z3.Function('SQ', z3.RealSort(), z3.RealSort())
+DIVF = z3.Function('DIVF', z3.RealSort(), z3.RealSort(), z3.RealSort())
 EPS = z3.RealVal('1/9007199254740992')   # 2**-53
 TWO53 = z3.RealVal(2 ** 53)
 
@@ -130,4 +131,31 @@ def sq(x):
         eng.add_axiom(z3.Implies(z3.And(x <= 0, y <= x), sy >= app))
         eng.add_axiom(z3.Implies(z3.And(y <= 0, x <= y), app >= sy))
     apps.append((x, app))
+    return app
+
+
+def divf(a, b):
+    """exact quotient a / b with a symbolic denominator, as an uninterpreted function with the facts order proofs need
+    (keeps the queries linear): sign; monotone non-decreasing in a and non-increasing in b on a >= 0, b > 0; and for every constant
+    c registered by the harness in eng.div_consts:  b > 0  =>  (DIVF(a, b) >= c  <=>  a >= c * b)  and the same with <=."""
+    eng = E.cur()
+    app = DIVF(a, b)
+    apps = getattr(eng, 'div_apps', None)
+    if apps is None or getattr(eng, '_div_path', None) is not eng.path:
+        apps = eng.div_apps = []
+        eng._div_path = eng.path
+    for (x, y, _) in apps:
+        if x.eq(a) and y.eq(b):
+            return app
+    ax = eng.add_axiom
+    ax(z3.Implies(z3.And(a >= 0, b > 0), app >= 0))
+    ax(z3.Implies(z3.And(a > 0, b > 0), app > 0))
+    ax(z3.Implies(z3.And(a == b, b > 0), app == 1))
+    for c in getattr(eng, 'div_consts', ()):
+        ax(z3.Implies(b > 0, (app >= c) == (a >= c * b)))
+        ax(z3.Implies(b > 0, (app <= c) == (a <= c * b)))
+    for (x, y, q) in apps:
+        ax(z3.Implies(z3.And(a >= 0, x >= 0, b > 0, y > 0, a <= x, b >= y), app <= q))
+        ax(z3.Implies(z3.And(a >= 0, x >= 0, b > 0, y > 0, x <= a, y >= b), q <= app))
+    apps.append((a, b, app))
     return app
